@@ -983,4 +983,93 @@ Lemma slate_roundtrip_all_names (db : databox) fr from n (o : sopts A) trimmed :
   slate_roundtrip A db None fr from n o trimmed = slate_roundtrip A db (Some (names A db)) fr from n o trimmed.
 Proof. reflexivity. Qed.
 
+(* ---------------------------------------------------------------- the dataslate as an object *)
+Lemma nth_skipn' {T} (l : list T) j i d : nth i (skipn j l) d = nth (j + i) l d.
+Proof.
+  revert l. induction j as [|j IH]; intros l; [reflexivity|]. destruct l as [|x r]; [now destruct i|]. apply IH.
+Qed.
+
+Lemma nth_firstn' {T} (l : list T) m i d : (i < m)%nat -> nth i (firstn m l) d = nth i l d.
+Proof.
+  revert l i. induction m as [|m IH]; intros l i Hi; [lia|]. destruct l as [|x r]; [reflexivity|].
+  destruct i; [reflexivity|]. simpl. apply IH. lia.
+Qed.
+
+Lemma slate_cell_map (g : list V -> list V) sl k q t :
+  g [] = [] -> slate_cell A (map (map g) sl) k q t = nth t (g (nth q (nth k sl []) [])) (miss A).
+Proof.
+  intros Hg. unfold slate_cell.
+  change (@nil (list V)) with (map g (@nil (list V))) at 1. rewrite map_nth.
+  rewrite <- Hg at 1. now rewrite map_nth.
+Qed.
+
+(* removing j periods from the start: column t of the result is column j + t of the original (no value moves to
+   another period), the periods are the remaining ones, and the base periods are exactly the original base periods
+   that remain -- in particular a base column sitting exactly at the cut stays a base column *)
+Theorem ds_remove_start_spec (d d' : dslate A) (k : Z) : 0 <= k -> ds_remove_start A d k = Ok d' ->
+  let j := Z.to_nat k in
+  ds_names A d' = ds_names A d /\
+  ds_periods A d' = skipn j (ds_periods A d) /\
+  map (fun i => nth i (ds_periods A d') 0) (ds_base A d')
+    = map (fun i => nth i (ds_periods A d) 0) (filter (fun i => Nat.leb j i) (ds_base A d)) /\
+  forall kv q t, slate_cell A (ds_data A d') kv q t = slate_cell A (ds_data A d) kv q (j + t).
+Proof.
+  intros Hk H j. unfold ds_remove_start in H. destruct (Z.ltb_spec k 0); [lia|]. fold j in H.
+  destruct (Nat.eqb_spec j 0) as [E|E].
+  - inversion H; subst d'. rewrite E. cbn [skipn Nat.add]. repeat split; try reflexivity.
+    f_equal. symmetry. apply filter_all. reflexivity.
+  - inversion H; subst d'. cbn [ds_names ds_periods ds_base ds_data]. repeat split; try reflexivity.
+    + rewrite map_map. apply map_ext_in. intros i Hi. apply filter_In in Hi as [_ Hi]. apply Nat.leb_le in Hi.
+      rewrite nth_skipn'. f_equal. lia.
+    + intros kv q t. rewrite slate_cell_map by (now destruct j). apply nth_skipn'.
+Qed.
+
+(* removing j > 0 periods from the end keeps every remaining column in place and exactly the base columns that
+   still address a period; removing 0 periods changes nothing *)
+Theorem ds_remove_end_spec (d d' : dslate A) (k : Z) : 0 <= k -> ds_remove_end A d k = Ok d' ->
+  let j := Z.to_nat k in
+  (j = 0%nat -> d' = d) /\
+  (j <> 0%nat ->
+     ds_names A d' = ds_names A d /\
+     ds_periods A d' = firstn (length (ds_periods A d) - j) (ds_periods A d) /\
+     ds_base A d' = filter (fun i => Nat.ltb i (length (ds_periods A d'))) (ds_base A d) /\
+     forall kv q t, (t < length (nth q (nth kv (ds_data A d) []) []) - j)%nat ->
+       slate_cell A (ds_data A d') kv q t = slate_cell A (ds_data A d) kv q t).
+Proof.
+  intros Hk H j. unfold ds_remove_end in H. destruct (Z.ltb_spec k 0); [lia|]. fold j in H.
+  destruct (Nat.eqb_spec j 0) as [E|E]; (split; [intros E'|intros E']); try contradiction; try (now inversion H).
+  inversion H; subst d'. cbn [ds_names ds_periods ds_base ds_data]. repeat split; try reflexivity.
+  intros kv q t Ht. rewrite (slate_cell_map (fun v => firstn (length v - j) v)) by reflexivity.
+  now apply nth_firstn'.
+Qed.
+
+(* to_databox(span="base"): every name comes back as a series starting at the first base period whose value at the
+   base period number i (counted from the first base column b0) is column b0 + i of the dataslate; missing elsewhere *)
+Theorem ds_to_databox_base_spec (d : dslate A) fr trimmed db' b0 rest :
+  ds_base A d = b0 :: rest ->
+  ds_to_databox A d fr true trimmed = Ok db' ->
+  let p0 := nth b0 (ds_periods A d) 0 in
+  let w := (Nat.min (S (last (ds_base A d) b0)) (ds_ncols A d) - b0)%nat in
+  forall nm, In nm (ds_names A d) ->
+    exists s q, nth q (ds_names A d) ""%string = nm /\ (q < length (ds_names A d))%nat /\
+      dget A db' nm = Some (ISer A ""%string s) /\ WF A s /\ s_nv s = length (ds_data A d) /\
+      forall t k, (k < length (ds_data A d))%nat ->
+        cell A s t k = if (p0 <=? t) && (t <? p0 + Z.of_nat w)
+                       then slate_cell A (ds_data A d) k q (b0 + Z.to_nat (t - p0)) else miss A.
+Proof.
+  intros Hb H p0 w nm Hin. unfold ds_to_databox in H. rewrite Hb in H. rewrite <- Hb in H.
+  destruct (Nat.leb (length (ds_periods A d)) b0); [discriminate|]. inversion H; subst db'. clear H.
+  fold p0 w. unfold to_databox.
+  set (sl' := map (map (fun v : list V => firstn w (skipn b0 v))) (ds_data A d)).
+  destruct (to_databox_fold sl' fr p0 w (length (ds_data A d)) trimmed (ds_names A d) O [] nm) as [H1 _].
+  destruct (H1 Hin) as (q & Hq & Hnth & Hget). rewrite Nat.sub_0_r in Hnth.
+  destruct (slate_series_shape sl' fr p0 w (length (ds_data A d)) trimmed q) as (Hwf & Hnv & _).
+  eexists. exists q. split; [exact Hnth|]. split; [lia|]. split; [exact Hget|]. split; [assumption|]. split; [assumption|].
+  intros t k Hk. rewrite slate_series_cell by assumption.
+  destruct ((p0 <=? t) && (t <? p0 + Z.of_nat w)) eqn:Ein; [|reflexivity].
+  apply andb_true_iff in Ein as [E1 E2]. apply Z.leb_le in E1. apply Z.ltb_lt in E2.
+  unfold sl'. rewrite (slate_cell_map (fun v => firstn w (skipn b0 v))) by (now rewrite skipn_nil, firstn_nil).
+  rewrite nth_firstn' by lia. apply nth_skipn'.
+Qed.
+
 End SlateProofs.
